@@ -992,7 +992,20 @@ def _decorate_new_with_invariants(new_func: CallableT) -> CallableT:
 
     def wrapper(*args, **kwargs):  # type: ignore
         """Pass the arguments to __new__ and check invariants on the result."""
-        instance = new_func(*args, **kwargs)
+        if (
+            new_func is object.__new__
+            and len(args) > 0
+            and getattr(args[0], "__init__", object.__init__) is not object.__init__
+        ):
+            # A derived class defines __init__: the remaining arguments are meant for it. ``object.__new__``
+            # accepts them only as long as __new__ is not overridden, which this very wrapper does.
+            instance = new_func(args[0])
+        else:
+            instance = new_func(*args, **kwargs)
+
+        if instance.__class__.__init__ is not object.__init__:
+            # The object is complete only once __init__ has run; the wrapper around __init__ checks the invariants.
+            return instance
 
         for invariant in instance.__class__.__invariants__:
             _assert_invariant(contract=invariant, instance=instance)
